@@ -6,6 +6,7 @@ import base64
 import os
 import random
 import sys
+import tempfile
 
 sys.path.insert(0, os.path.dirname(os.path.abspath(__file__)))
 from common import framework as fw  # noqa: E402
@@ -19,6 +20,7 @@ from PIL import Image  # noqa: E402
 from term_image.image import BlockImage, ITerm2Image, KittyImage  # noqa: E402
 
 KINDS = ["kitty", "konsole", "wezterm", "iterm2", "other"]
+TMP = tempfile.mkdtemp(prefix="c01-")
 
 
 def hx(b: bytes) -> str:
@@ -58,12 +60,14 @@ class C01(Property):
                 d["mix"] = rng.random() < 0.4
                 d["compress"] = rng.choice([0, 1, 4, 9])
                 d["term"] = rng.choice(KINDS)
+                if style == "iterm2" and d["method"] == "anim" and rng.random() < 0.6:
+                    d["animated"] = rng.choice([2, 3])  # a real multi-frame file: native animation path
                 if style == "kitty":
                     d["blend"] = rng.random() < 0.6
                     d["z"] = rng.choice([0, -1, 1, 2**31 - 1, -(2**31) + 1, rng.randrange(-99, 99)])
                 else:
                     d["jpeg"] = rng.choice([-1, -1, 30, 95])
-                kind = f"{style}-{d['method']}" + (f"-{d['term']}" if style == "iterm2" else "")
+                kind = f"{style}-{d['method']}" + (f"-{d['term']}" if style == "iterm2" else "") + ("-native" if d.get("animated") else "")
             yield Case("", d, kind, True)
 
     # -- run the real code, build the model request from what the real code was given ------
@@ -97,7 +101,16 @@ class C01(Property):
             return out, line
         env.set_env(cell_size=d["cell"], name=d["term"])
         cls = KittyImage if style == "kitty" else ITerm2Image
-        im = cls(img)
+        if d.get("animated"):
+            frames = []
+            for k in range(d["animated"]):
+                dd = dict(d, iseed=d["iseed"] + k, mode="RGB")
+                frames.append(imgkit.make_image(dd).convert("P"))
+            path = os.path.join(TMP, f"anim-{d['iseed']}.gif")
+            frames[0].save(path, save_all=True, append_images=frames[1:], duration=100, loop=0)
+            im = cls.from_file(path)
+        else:
+            im = cls(img)
         im.set_size(width=d["cols"]) if d["cols"] <= d["lines"] else im.set_size(height=d["lines"])
         rw, rh = im.rendered_size
         d["_size"] = [rw, rh]
